@@ -11,6 +11,15 @@ Only what matters for that is modelled: the `extglob` option, functions (with th
 extglob to be parsed") and variables (which stand for everything written behind the functions).
 `persist` is the order after fix e15e02e (recorded options, `shopt -s extglob`, functions, the
 recorded `extglob` again, variables); `persistOld` is the order before it.
+
+Two more facts about bash are modelled since fixes 296e2dd, 79ceed0 and 6fb091a:
+* `shopt -u extdebug` also switches `errtrace` and `functrace` off (and `-s` switches them on), so the
+  recorded `shopt` options have to be restored BEFORE the recorded `set -o` options (`errtrace` stands for
+  both); `persistSetFirst` is the order before fix 6fb091a.
+* the hook that writes the file is itself run by the shell whose options the test case changed: under
+  `errexit` it ends at its first command that returns non-zero (`shopt -p extglob` does while the option
+  is off) and the test case then ends with status 1; under `noclobber` the redirection `>` refuses to
+  overwrite the state file of the previous test case (`writeState`).
 The parse-time behaviour of bash is the assumption of this model; the history
 `shopt -s extglob; g() { case $1 in +([0-9])) …; }`, then `shopt -u extglob` of the harness pool
 (harness/src/shellstate.rs, class `function-extglob`) runs it against real bash on every check.
@@ -25,12 +34,18 @@ structure Fn where
 
 structure St where
   extglob : Bool
+  /-- `shopt extdebug` -/
+  extdebug : Bool := false
+  /-- `set -o errtrace` (and `functrace`, which behaves the same) -/
+  errtrace : Bool := false
   funcs : List Fn
   vars : List (Nat × Nat)
   deriving DecidableEq, Repr
 
 inductive Line where
   | setExtglob (b : Bool)
+  | setExtdebug (b : Bool)
+  | setErrtrace (b : Bool)
   | defFn (f : Fn)
   | setVar (k v : Nat)
   deriving DecidableEq, Repr
@@ -40,21 +55,74 @@ it is off is a syntax error, and bash stops reading the file there -/
 def source : St → List Line → St
   | s, [] => s
   | s, .setExtglob b :: r => source { s with extglob := b } r
+  -- switching `extdebug` drags `errtrace` / `functrace` along
+  | s, .setExtdebug b :: r => source { s with extdebug := b, errtrace := b } r
+  | s, .setErrtrace b :: r => source { s with errtrace := b } r
   | s, .defFn f :: r =>
     if f.needsExtglob && !s.extglob then s
     else source { s with funcs := s.funcs ++ [f] } r
   | s, .setVar k v :: r => source { s with vars := s.vars ++ [(k, v)] } r
 
 /-- a new bash process -/
-def fresh : St := ⟨false, [], []⟩
+def fresh : St := { extglob := false, funcs := [], vars := [] }
 
-/-- the state file as it is written now -/
+/-- the state file as it is written now: `shopt -p`, `set +o`, `shopt -s extglob`, `declare -f`,
+`shopt -p extglob`, the variables -/
 def persist (s : St) : List Line :=
-  [.setExtglob s.extglob, .setExtglob true] ++ s.funcs.map .defFn ++ [.setExtglob s.extglob] ++
-    s.vars.map (fun kv => .setVar kv.1 kv.2)
+  [.setExtdebug s.extdebug, .setExtglob s.extglob, .setErrtrace s.errtrace, .setExtglob true] ++
+    s.funcs.map .defFn ++ [.setExtglob s.extglob] ++ s.vars.map (fun kv => .setVar kv.1 kv.2)
 
 /-- the state file as it was written before fix e15e02e: options first, functions after them -/
 def persistOld (s : St) : List Line :=
   [.setExtglob s.extglob] ++ s.funcs.map .defFn ++ s.vars.map (fun kv => .setVar kv.1 kv.2)
+
+/-- the order before fix 6fb091a: `set +o` in front of `shopt -p` -/
+def persistSetFirst (s : St) : List Line :=
+  [.setErrtrace s.errtrace, .setExtdebug s.extdebug, .setExtglob s.extglob, .setExtglob true] ++
+    s.funcs.map .defFn ++ [.setExtglob s.extglob] ++ s.vars.map (fun kv => .setVar kv.1 kv.2)
+
+/-! ## the hook that writes the file -/
+
+/-- what of the test case's shell decides whether its own persist hook gets through -/
+structure Hook where
+  errexit : Bool
+  noclobber : Bool
+  /-- the state file of an earlier test case, if one was written -/
+  old : Option (List Line)
+  deriving DecidableEq, Repr
+
+/-- one command of the hook's sub-shell: the lines it prints and its exit status -/
+structure Cmd where
+  out : List Line
+  status : Nat
+  deriving DecidableEq, Repr
+
+/-- the commands of the sub-shell in order; `guarded`: `shopt -p extglob || true` (since fix 296e2dd) instead of
+`shopt -p extglob`, whose status is 1 while the option is off -/
+def hookCmds (guarded : Bool) (s : St) : List Cmd :=
+  [ ⟨[.setExtdebug s.extdebug, .setExtglob s.extglob], 0⟩,                 -- shopt -p
+    ⟨[.setErrtrace s.errtrace], 0⟩,                                         -- set +o
+    ⟨[.setExtglob true], 0⟩,                                                -- echo "shopt -s extglob"
+    ⟨s.funcs.map .defFn, 0⟩,                                                -- declare -f
+    ⟨[.setExtglob s.extglob], if guarded || s.extglob then 0 else 1⟩,       -- shopt -p extglob
+    ⟨s.vars.map (fun kv => .setVar kv.1 kv.2), 0⟩ ]                         -- declare -p | grep …
+
+/-- the sub-shell: under `errexit` it ends behind the first command that returns non-zero, with that status -/
+def runCmds (errexit : Bool) : List Cmd → List Line × Nat
+  | [] => ([], 0)
+  | c :: r =>
+    if errexit && c.status != 0 then (c.out, c.status)
+    else let (o, st) := runCmds errexit r; (c.out ++ o, st)
+
+/-- `( … ) > state` (`force = false`) or `( … ) >| state` (`force = true`, since fix 79ceed0), then `exit $code`:
+the state file afterwards and the exit status of the test case whose command ended with `code`.
+Under `noclobber` a plain `>` onto an existing file fails before the sub-shell runs; a failing sub-shell or
+redirection ends the hook under `errexit`, with status 1 (the statuses of this model are 0 and 1). -/
+def writeState (guarded force : Bool) (h : Hook) (s : St) (code : Nat) : Option (List Line) × Nat :=
+  if h.noclobber && !force && h.old.isSome then
+    (h.old, if h.errexit then 1 else code)
+  else
+    let (lines, st) := runCmds h.errexit (hookCmds guarded s)
+    (some lines, if h.errexit && st != 0 then st else code)
 
 end Scrut.StateFile
